@@ -553,4 +553,71 @@ def check_C08(cx):
     return check_frame(cx, "C08")
 
 
-CHECKS = {"C04": check_C04, "C08": check_C08, "C13": check_C13, "C19": check_C19, "C03": check_C03, "C07": check_C07}
+# ---------------------------------------------------------------- Wire / C17
+def wire_op(label):
+    name, args = parse_call(label)
+    args = unset(args)
+    if name == "Write":
+        return {"op": "write", "n": args[0]}
+    if name == "Writev":
+        return {"op": "writev", "ns": args[0]}
+    if name == "Flush":
+        return {"op": "flush"}
+    if name == "Read":
+        return {"op": "read", "d": args[0]}
+    raise Inconclusive("unknown Wire label " + label)
+
+
+def check_C17(cx):
+    cx.module = "wire"
+    cx.build()
+    quick = cx.tier == "quick"
+    inv = ["C17_NoReorder", "C17_Flushed", "C17_ReadNoLoss", "C17_PendBound"]
+    variants = [(4, 4), (4, 0), (0, 4), (0, 0), (1, 1)]
+    if not quick:
+        variants += [(16, 3), (16, 16), (1, 0), (3, 16), (64, 64)]
+    for wv, rv in variants:
+        rb = 16 if 0 < rv < 16 else rv
+        sizes = sorted(set([0, 1] + [max(0, wv - 1), wv, wv + 1, 2 * wv + 1] + [max(1, rb - 1), rb, rb + 1]))
+        frags = [max(1, rb - 1), 1, 2 * rb + 3, 1] if rv else [3, 1, 7]
+        consts = {"W": wv, "R": rv, "Sizes": set(sizes), "MaxOps": 2 if quick else 3, "Frags": frags}
+        name = "w%dr%d" % (wv, rv)
+        gconsts = dict(consts)
+        gconsts["MaxOps"] = 2 if quick else 3
+        res = generic_mc(cx, "MC" + name, "Wire", consts, inv, what="C17 invariants, W=%d R=%d, sequences of %d operations over sizes %s" % (wv, rv, consts["MaxOps"], sizes))
+        init, adj = generic_graph(cx, "G" + name, "Wire", gconsts)
+        paths, total, planned = edge_cover(init, adj, cx.rnd, max_paths=600 if quick else None)
+        cases = [{"id": "%s-p%d" % (name, i), "w": wv, "r": rv, "frags": frags, "ops": [wire_op(l) for _, l, _ in p], "seed": cx.rnd.randrange(1, 1 << 30)}
+                 for i, p in enumerate(paths)]
+        rs = run_driver(cx.driver, "wire", cases, cx.wd, tag=name)
+        cx.absorb(rs, cases)
+        v = validate(cx, "T" + name, "TraceWire", gconsts, rs, inv, {"op": "reset"})
+        cx.edges_total += total
+        cx.edges_walked += planned if not v["rejected"] else 0
+        # longer random sequences with the real buffer sizes of this variant
+        rc = dict(consts)
+        rc["MaxOps"] = 12
+        cases = [{"id": "%s-r%d" % (name, i), "w": wv, "r": rv, "frags": frags, "random": 12, "sizes": sizes, "seed": cx.rnd.randrange(1, 1 << 30)}
+                 for i in range(40 if quick else 400)]
+        rs = run_driver(cx.driver, "wire", cases, cx.wd, tag=name + "r")
+        cx.absorb(rs, cases)
+        validate(cx, "TR" + name, "TraceWire", rc, rs, inv, {"op": "reset"})
+        if rs and len(cx.samples) < 3:
+            cx.samples.append({"W": wv, "R": rv, "ops": rs[0]["events"][:8]})
+        log("  wire %s: %d edges, %d paths, t=%.1fs" % (name, total, len(paths), time.time() - cx.t0))
+    # large realistic buffers (oracle + trace validation, no graph)
+    for wv, rv in [(4096, 4096), (2048, 0), (0, 1024)]:
+        sizes = [0, 1, 100, 1023, 1024, 1025, 2047, 2048, 2049, 4095, 4096, 4097, 8193]
+        frags = [1, 1500, 1, 4096, 7, 9000]
+        rc = {"W": wv, "R": rv, "Sizes": set(sizes), "MaxOps": 16, "Frags": frags}
+        cases = [{"id": "big%d-%d-r%d" % (wv, rv, i), "w": wv, "r": rv, "frags": frags, "random": 16, "sizes": sizes, "seed": cx.rnd.randrange(1, 1 << 30)}
+                 for i in range(30 if quick else 300)]
+        rs = run_driver(cx.driver, "wire", cases, cx.wd, tag="big")
+        cx.absorb(rs, cases)
+        validate(cx, "TB%d_%d" % (wv, rv), "TraceWire", rc, rs, inv, {"op": "reset"})
+    cx.assume.append("the scripted in-memory net.Conn stands in for a TCP connection; bufio is modelled exactly (Go 1.23 semantics)")
+    return finish(cx, rule="cases = Write/Writev/Flush/Read sequences on transport.NewTransport(conn, R, W) for the four wrapper variants; "
+                            "distinct_nontrivial = distinct Wire.tla transitions replayed")
+
+
+CHECKS = {"C17": check_C17, "C04": check_C04, "C08": check_C08, "C13": check_C13, "C19": check_C19, "C03": check_C03, "C07": check_C07}
